@@ -68,7 +68,7 @@ class Obj:
 
     def default_byte(self, off):
         for lo, hi, v in reversed(self.fills):
-            if lo <= off < hi: return v
+            if lo <= off < hi: return v[(off - lo) % len(v)] if isinstance(v, list) else v
         return 0 if self.zero else None
 
 
@@ -691,8 +691,12 @@ class Interp:
 
     # ------------------------------------------------------------ execution
     def call(self, name, args):
-        if name in self.overrides: return self.overrides[name](self, *args)
         f = self.m.funcs.get(name)
+        if name in self.overrides:
+            if f is not None and any(isinstance(a, Sym) for a in args):
+                args = [self.concretize(a, 'pointer argument of ' + name) if isinstance(a, Sym) and k < len(f.params) and isinstance(f.params[k][0], PtrTy) else a
+                        for k, a in enumerate(args)]
+            return self.overrides[name](self, *args)
         if f is None or not f.defined:
             mdl = self.models.get(name[1:])
             if mdl is None: raise Unsupported('no model for external ' + name)
@@ -748,6 +752,16 @@ class Interp:
             if k[0] < off or k[0] + k[1] > off + n: self.split_cell(o, k)
         for k in [k for k in o.cells if k[0] >= off and k[0] + k[1] <= off + n]: del o.cells[k]
         o.fills.append((off, off + n, v))
+
+    def fill_pattern(self, addr, pattern, count):
+        """store `count` copies of the byte pattern (list of ints / 8-bit Syms) from addr on, without touching every byte"""
+        n = len(pattern) * count
+        if n == 0: return
+        o, off = self.resolve(addr, n, 'fill')
+        for k in [k for k in o.cells if k[0] < off + n and off < k[0] + k[1]]:
+            if k[0] < off or k[0] + k[1] > off + n: self.split_cell(o, k)
+        for k in [k for k in o.cells if k[0] >= off and k[0] + k[1] <= off + n]: del o.cells[k]
+        o.fills.append((off, off + n, list(pattern)))
 
     def run_fn(self, f, fr, allocas):
         blocks = f.blocks
